@@ -9,9 +9,11 @@
    the only reader error modelled.
 
    encoding/xml's Decoder together with xmlToMapParser / xmlSeqToMapParser is the
-   environment: an abstract deterministic consumer (`machine`) of the ReadByte results,
-   which looks at the error first (Decoder.getc: `b, d.err = d.r.ReadByte(); if d.err != nil
-   { return 0, false }`) and otherwise at the byte.  NewMapJson is an oracle `str -> res value`.
+   environment: an abstract deterministic consumer (`machine`) of the ReadByte results
+   (Decoder.getc: `b, d.err = d.r.ReadByte(); if d.err != nil { return 0, false }`).
+   NewMapJson is an oracle `str -> res value`.
+   The model follows /repo after a2b77a7 (adaptors and getJson use the count returned by Read),
+   419ac2a (escape state in getJson), fd230a2 (m != nil in the loops), 9f7e6ef.
    No proofs in this file. *)
 From Mxj Require Export Base.Value.
 
@@ -45,49 +47,71 @@ Definition clean (S : list rev) : bool := forallb clean_ev S.
 
 Definition zero_byte : ascii := ascii_of_N 0.
 
-(* n, err := r.Read(p) with len(p) = 1 and p[0] = buf before the call:
-   (n, err != nil, p[0] afterwards, the reader afterwards) *)
-Definition read_into (buf : ascii) (S : list rev) : nat * bool * ascii * list rev :=
+(* n, err := r.Read(p) with len(p) = 1: (n, err != nil, the byte stored in p[0] if n > 0, the reader afterwards) *)
+Definition read_into (S : list rev) : nat * bool * ascii * list rev :=
   match read1 S with
   | (Data b, S') => (1, false, b, S')
   | (DataEOF b, S') => (1, true, b, S')
-  | (Zero, S') => (0, false, buf, S')
-  | (Eof, S') => (0, true, buf, S')
+  | (Zero, S') => (0, false, zero_byte, S')
+  | (Eof, S') => (0, true, zero_byte, S')
   end.
 
-(* ------------------------------------------------------------------ xml.go:927-951 byteReader *)
+(* what ReadByte returns *)
+Inductive rberr := RBEof | RBNoProgress.          (* io.EOF (from the reader) | io.ErrNoProgress *)
+Inductive rbres := RBByte (b : ascii) | RBErr (e : rberr).
 
-Record breader := { br_b : ascii; br_r : list rev }.
-(* myByteReader: b := make([]byte, 1) *)
-Definition my_byte_reader (S : list rev) : breader := {| br_b := zero_byte; br_r := S |}.
+(* ------------------------------------------------------------------ xml.go byteReader *)
+
 (* func (b *byteReader) ReadByte() (byte, error) {
-       _, err := b.r.Read(b.b)
-       if len(b.b) > 0 { return b.b[0], err }     -- len(b.b) is always 1
-       ... } *)
-Definition br_read_byte (b : breader) : (ascii * bool) * breader :=
-  let '(_, err, buf', S') := read_into (br_b b) (br_r b) in
-  ((buf', err), {| br_b := buf'; br_r := S' |}).
+       for i := 0; i < 100; i++ {
+           n, err := b.r.Read(b.b)
+           if n > 0 { return b.b[0], nil }     -- the reader reports err again on the next Read
+           if err != nil { return 0, err }
+       }
+       return 0, io.ErrNoProgress }
+   b.b[0] is only looked at right after Read stored a byte in it, so the buffer carries no state;
+   the adaptor's state is the reader. *)
+Fixpoint br_loop (i : nat) (S : list rev) : rbres * list rev :=
+  match i with
+  | O => (RBErr RBNoProgress, S)
+  | Datatypes.S i' =>
+      let '(n, err, b, S') := read_into S in
+      if Nat.ltb 0 n then (RBByte b, S')
+      else if err then (RBErr RBEof, S')
+      else br_loop i' S'
+  end.
+Definition br_read_byte (S : list rev) : rbres * list rev := br_loop 100 S.
 
-(* ------------------------------------------------------------------ xml.go:897-924 teeReader *)
+(* ------------------------------------------------------------------ xml.go teeReader *)
 
-Record treader := { tr_b : ascii; tr_w : str; tr_r : list rev }.
-Definition my_tee_reader (S : list rev) : treader := {| tr_b := zero_byte; tr_w := []; tr_r := S |}.
+Record treader := { tr_w : str; tr_r : list rev }.
+Definition my_tee_reader (S : list rev) : treader := {| tr_w := []; tr_r := S |}.
 (* func (t *teeReader) ReadByte() (byte, error) {
-       n, err := t.r.Read(t.b)
-       if n > 0 { if _, err := t.w.Write(t.b[:1]); err != nil { return t.b[0], err } }   -- bytes.Buffer.Write: err == nil
-       return t.b[0], err } *)
-Definition tr_read_byte (t : treader) : (ascii * bool) * treader :=
-  let '(n, err, buf', S') := read_into (tr_b t) (tr_r t) in
-  let w' := if Nat.ltb 0 n then tr_w t ++ [buf'] else tr_w t in
-  ((buf', err), {| tr_b := buf'; tr_w := w'; tr_r := S' |}).
+       for i := 0; i < 100; i++ {
+           n, err := t.r.Read(t.b)
+           if n > 0 { if _, werr := t.w.Write(t.b[:1]); werr != nil {...}   -- bytes.Buffer.Write: werr == nil
+                      return t.b[0], nil }
+           if err != nil { return 0, err }
+       }
+       return 0, io.ErrNoProgress } *)
+Fixpoint tr_loop (i : nat) (t : treader) : rbres * treader :=
+  match i with
+  | O => (RBErr RBNoProgress, t)
+  | Datatypes.S i' =>
+      let '(n, err, b, S') := read_into (tr_r t) in
+      if Nat.ltb 0 n then (RBByte b, {| tr_w := tr_w t ++ [b]; tr_r := S' |})
+      else if err then (RBErr RBEof, {| tr_w := tr_w t; tr_r := S' |})
+      else tr_loop i' {| tr_w := tr_w t; tr_r := S' |}
+  end.
+Definition tr_read_byte (t : treader) : rbres * treader := tr_loop 100 t.
 
-(* the first n results of ReadByte, as the caller sees them *)
-Fixpoint br_results (n : nat) (b : breader) : list (ascii * bool) :=
-  match n with O => [] | S k => let '(r, b') := br_read_byte b in r :: br_results k b' end.
-Fixpoint tr_results (n : nat) (t : treader) : list (ascii * bool) * treader :=
+(* the first n results of ReadByte *)
+Fixpoint br_results (n : nat) (S : list rev) : list rbres :=
+  match n with O => [] | Datatypes.S k => let '(r, S') := br_read_byte S in r :: br_results k S' end.
+Fixpoint tr_results (n : nat) (t : treader) : list rbres * treader :=
   match n with
   | O => ([], t)
-  | S k => let '(r, t') := tr_read_byte t in let '(rs, t'') := tr_results k t' in (r :: rs, t'')
+  | Datatypes.S k => let '(r, t') := tr_read_byte t in let '(rs, t'') := tr_results k t' in (r :: rs, t'')
   end.
 
 (* ------------------------------------------------------------------ the consumer of ReadByte results *)
@@ -96,23 +120,27 @@ Record machine (R : Type) := {
   m_st : Type;
   m_init : m_st;
   m_step : m_st -> ascii -> m_st + R;   (* ReadByte returned (b, nil) *)
-  m_eof : m_st -> R                     (* ReadByte returned (_, io.EOF): the byte is not looked at *)
+  m_eof : m_st -> R;                    (* ReadByte returned (_, io.EOF) *)
+  m_noprog : m_st -> R                  (* ReadByte returned (_, io.ErrNoProgress) *)
 }.
-Arguments m_st {R}. Arguments m_init {R}. Arguments m_step {R}. Arguments m_eof {R}.
+Arguments m_st {R}. Arguments m_init {R}. Arguments m_step {R}. Arguments m_eof {R}. Arguments m_noprog {R}.
 
-(* run M over the results of a ReadByte function; every call consumes one schedule event,
-   so fuel = 1 + length of the schedule is never exhausted (Proofs/C13P.v) *)
-Fixpoint drive {R A} (M : machine R) (rb : A -> (ascii * bool) * A) (fuel : nat) (st : m_st M) (a : A)
+(* run M over the results of a ReadByte function; every call consumes at least one schedule event
+   unless the schedule is exhausted, so fuel = 1 + length of the schedule is never exhausted *)
+Fixpoint drive {R A} (M : machine R) (rb : A -> rbres * A) (fuel : nat) (st : m_st M) (a : A)
   : option (R * A) :=
   match fuel with
   | O => None
   | S f =>
-      let '((b, err), a') := rb a in
-      if err then Some (m_eof M st, a')
-      else match m_step M st b with
-           | inl st' => drive M rb f st' a'
-           | inr r => Some (r, a')
-           end
+      let '(r, a') := rb a in
+      match r with
+      | RBErr RBEof => Some (m_eof M st, a')
+      | RBErr RBNoProgress => Some (m_noprog M st, a')
+      | RBByte b => match m_step M st b with
+                    | inl st' => drive M rb f st' a'
+                    | inr r => Some (r, a')
+                    end
+      end
   end.
 
 (* the same machine fed from a bytes.Reader (an io.ByteReader: no adaptor in between):
@@ -133,10 +161,7 @@ Definition xmachine := machine (res value).
 (* NewMapXmlReader / NewMapXmlSeqReader (xml.go:101-118, xmlseq.go:139-155) on a reader that is not
    an io.ByteReader: a fresh byteReader is put under xml.NewDecoder on every call *)
 Definition new_map_xml_reader (M : xmachine) (S : list rev) : option (res value * list rev) :=
-  match drive M br_read_byte (Datatypes.S (length S)) (m_init M) (my_byte_reader S) with
-  | Some (r, b) => Some (r, br_r b)
-  | None => None
-  end.
+  drive M br_read_byte (Datatypes.S (length S)) (m_init M) S.
 
 (* NewMapXmlReaderRaw (xml.go:134-154): a fresh teeReader; `if err != nil { return nil, b, err }` *)
 Definition new_map_xml_reader_raw (M : xmachine) (S : list rev) : option (res value * str * list rev) :=
@@ -147,75 +172,80 @@ Definition new_map_xml_reader_raw (M : xmachine) (S : list rev) : option (res va
 
 (* ------------------------------------------------------------------ json.go:182-237 getJson *)
 
-Record jstate := { inQuote : bool; inJson : bool; parenCnt : Z; previous : ascii; jb : str }.
+Record jstate := { inQuote : bool; inJson : bool; parenCnt : Z; escaped : bool; jb : str }.
 Definition jinit : jstate :=
-  {| inQuote := false; inJson := false; parenCnt := 0; previous := zero_byte; jb := [] |}.
+  {| inQuote := false; inJson := false; parenCnt := 0; escaped := false; jb := [] |}.
 
 Inductive jscan :=
 | JOk (b : str)             (* return &jb, nil *)
-| JErr (b : str) (e : err)  (* return &jb, err  (io.EOF, or "no closing }") *)
-| JNil.                     (* return nil, err  ("closing } without opening {") *)
+| JErr (b : str) (e : err). (* return &jb, err  (io.EOF, "no closing }", "closing } without opening {") *)
 
 Definition cbyte (c : ascii) : N := N_of_ascii c.
 
-(* one pass through the body of the for loop after a successful Read, c = bval[0] *)
+(* one pass through the body of the for loop after a Read that delivered the byte c = bval[0] *)
 Definition jstep (st : jstate) (c : ascii) : jstate + jscan :=
-  (* the statements after the switch *)
-  let after (st : jstate) : jstate + jscan :=
-    if inJson st then
-      let jb' := jb st ++ [c] in                                   (* jb = append(jb, bval[0]) *)
-      if (parenCnt st =? 0)%Z then inr (JOk jb')                    (* if parenCnt == 0 { break } *)
-      else inl {| inQuote := inQuote st; inJson := true; parenCnt := parenCnt st; previous := c; jb := jb' |}
-    else inl {| inQuote := inQuote st; inJson := false; parenCnt := parenCnt st; previous := c; jb := jb st |} in
+  (* the statements after the switch; q = inQuote after the switch *)
+  let after (q : bool) (cnt : Z) (ij : bool) : jstate + jscan :=
+    let esc' := q && negb (escaped st) && (cbyte c =? 92)%N in        (* escaped = inQuote && !escaped && bval[0] == '\\' *)
+    if ij then
+      let jb' := jb st ++ [c] in                                     (* jb = append(jb, bval[0]) *)
+      if (cnt =? 0)%Z then inr (JOk jb')                              (* if parenCnt == 0 { break } *)
+      else inl {| inQuote := q; inJson := true; parenCnt := cnt; escaped := esc'; jb := jb' |}
+    else inl {| inQuote := q; inJson := false; parenCnt := cnt; escaped := esc'; jb := jb st |} in
   let n := cbyte c in
   if (n =? 123)%N then                                              (* case '{' *)
-    after (if inQuote st then st
-           else {| inQuote := false; inJson := true; parenCnt := parenCnt st + 1; previous := previous st; jb := jb st |})
+    if inQuote st then after true (parenCnt st) (inJson st)
+    else after false (parenCnt st + 1)%Z true                         (* parenCnt++; inJson = true *)
   else if (n =? 125)%N then                                         (* case '}' *)
-    let st1 := if inQuote st then st
-               else {| inQuote := false; inJson := inJson st; parenCnt := parenCnt st - 1; previous := previous st; jb := jb st |} in
-    if (parenCnt st1 <? 0)%Z then inr JNil                          (* return nil, fmt.Errorf("closing } without opening {") *)
-    else after st1
+    let cnt := if inQuote st then parenCnt st else (parenCnt st - 1)%Z in
+    if (cnt <? 0)%Z then inr (JErr (jb st) EOther)                  (* return &jb, fmt.Errorf("closing } without opening {") *)
+    else after (inQuote st) cnt (inJson st)
   else if (n =? 34)%N then                                          (* case the double quote *)
     if inQuote st then
-      if (cbyte (previous st) =? 92)%N then after st                (* if previous == '\\' { break } *)
-      else after {| inQuote := false; inJson := inJson st; parenCnt := parenCnt st; previous := previous st; jb := jb st |}
-    else after {| inQuote := true; inJson := inJson st; parenCnt := parenCnt st; previous := previous st; jb := jb st |}
+      if escaped st then after true (parenCnt st) (inJson st)       (* if escaped { break } *)
+      else after false (parenCnt st) (inJson st)                    (* inQuote = false *)
+    else after true (parenCnt st) (inJson st)                       (* inQuote = true *)
   else if (n =? 10)%N || (n =? 13)%N || (n =? 9)%N || (n =? 32)%N then   (* case '\n', '\r', '\t', ' ' *)
-    if negb (inQuote st) then inl st                                (* continue: nothing appended, previous unchanged *)
-    else after st
-  else after st.
+    if negb (inQuote st) then inl st                                (* continue: nothing appended, escaped unchanged *)
+    else after true (parenCnt st) (inJson st)
+  else after (inQuote st) (parenCnt st) (inJson st).
 
-(* if err != nil { if err == io.EOF && inJson && parenCnt > 0 { return &jb, "no closing }" }; return &jb, err } *)
+(* if n == 0 { if err == io.EOF && inJson && parenCnt > 0 { return &jb, "no closing }" }; return &jb, err } *)
 Definition jeof (st : jstate) : jscan :=
   if inJson st && (0 <? parenCnt st)%Z then JErr (jb st) EOther else JErr (jb st) EEOF.
 
 Definition jmachine : machine jscan :=
-  {| m_st := jstate; m_init := jinit; m_step := jstep; m_eof := jeof |}.
+  {| m_st := jstate; m_init := jinit; m_step := jstep; m_eof := jeof; m_noprog := jeof |}.
 
-(* bval := make([]byte, 1); for { _, err := rdr.Read(bval); if err != nil {...}; switch bval[0] ... }:
-   the count returned by Read is ignored and the error is tested first - the very statements of
-   byteReader.ReadByte followed by the decoder's test, so the loop is `drive` over br_read_byte *)
-Definition get_json (S : list rev) : option (jscan * list rev) :=
-  match drive jmachine br_read_byte (Datatypes.S (length S)) jinit (my_byte_reader S) with
-  | Some (r, b) => Some (r, br_r b)
-  | None => None
+(* the reading statements of getJson:
+     n, err := rdr.Read(bval)
+     if n == 0 && err == nil { continue }       -- retried without bound
+     if n == 0 { ... return &jb, err }
+     (n > 0: bval[0] is used, err is ignored - the reader reports it again on the next Read) *)
+Fixpoint jr_read_byte (S : list rev) : rbres * list rev :=
+  match S with
+  | [] => (RBErr RBEof, [])
+  | Data b :: S' | DataEOF b :: S' => (RBByte b, S')
+  | Zero :: S' => jr_read_byte S'
+  | Eof :: S' => (RBErr RBEof, S')
   end.
+
+Definition get_json (S : list rev) : option (jscan * list rev) :=
+  drive jmachine jr_read_byte (Datatypes.S (length S)) jinit S.
 
 (* NewMapJsonReader (json.go:154-162): jb, err := getJson(r); if err != nil || len( *jb ) == 0 { return nil, err } *)
 Definition new_map_json_reader (nmj : str -> res value) (S : list rev) : option (res value * list rev) :=
   match get_json S with
   | None => None
-  | Some (JNil, S') => Some (Err EOther, S')              (* err != nil: *jb is not evaluated *)
   | Some (JErr _ e, S') => Some (Err e, S')
   | Some (JOk b, S') => Some (match b with [] => Ok VNil | _ => nmj b end, S')
   end.
 
-(* NewMapJsonReaderRaw (json.go:169-178): ... { return nil, *jb, err } - *jb with jb == nil panics *)
+(* NewMapJsonReaderRaw: jb, err := getJson(r); if err != nil || len( *jb ) == 0 { return nil, *jb, err };
+   getJson always returns a non-nil pointer *)
 Definition new_map_json_reader_raw (nmj : str -> res value) (S : list rev) : option (res value * str * list rev) :=
   match get_json S with
   | None => None
-  | Some (JNil, S') => Some (Panic, [], S')
   | Some (JErr b e, S') => Some (Err e, b, S')
   | Some (JOk b, S') => Some (match b with [] => Ok VNil | _ => nmj b end, b, S')
   end.
@@ -242,8 +272,8 @@ Definition noraw (next : list rev -> option (res value * list rev)) (S : list re
 
 (* ------------------------------------------------------------------ bulk handlers *)
 
-(* len(m) != 0 for the Map a reader returned *)
-Definition nonempty_map (v : value) : bool := match v with VMap (_ :: _) => true | _ => false end.
+(* m != nil for the Map a reader returned together with a nil error (VNil stands for the nil Map) *)
+Definition non_nil (v : value) : bool := match v with VNil => false | _ => true end.
 
 Record hout := {
   h_calls : list (value * str);   (* mapHandler invocations, in order (Map, raw) *)
@@ -257,7 +287,7 @@ Record hout := {
    eh k = what errHandler returns on its k-th call:
      for { m, raw, merr := next(rdr); n++
            if merr != nil && merr != io.EOF { if ok := errHandler(merr, raw); !ok { return merr }; continue }
-           if len(m) != 0 { if ok := mapHandler(m, raw); !ok { break } } else if merr != io.EOF { sleep }
+           if m != nil { if ok := mapHandler(m, raw); !ok { break } } else if merr != io.EOF { sleep }
            if merr == io.EOF { break } }
      return nil *)
 Fixpoint handle_loop (next : list rev -> option (res value * str * list rev))
@@ -276,7 +306,7 @@ Fixpoint handle_loop (next : list rev -> option (res value * str * list rev))
           (* merr = fmt.Errorf("[xmlReader: %d] %s", n, merr.Error()): a new error value *)
           else Some {| h_calls := calls; h_errs := Datatypes.S nerr; h_ret := Err EOther; h_rest := S' |}
       | Some (Ok m, raw, S') =>
-          if nonempty_map m then
+          if non_nil m then
             if mh (length calls) m then handle_loop next mh eh f (calls ++ [(m, raw)]) nerr S'
             else Some {| h_calls := calls ++ [(m, raw)]; h_errs := nerr; h_ret := Ok tt; h_rest := S' |}
           else handle_loop next mh eh f calls nerr S'      (* sleep(pollInterval); next iteration *)
@@ -299,7 +329,7 @@ Definition handle_json_reader_raw nmj := handle_reader (new_map_json_reader_raw 
 Definition file_schedule (X : str) : list rev := map Data X.
 
 (* for { m, raw, err := next(fh); if err != nil && err != io.EOF { return am, error }
-         if len(m) > 0 { am = append(am, MapRaw{m, raw}) }; if err == io.EOF { break } }
+         if m != nil { am = append(am, MapRaw{m, raw}) }; if err == io.EOF { break } }
    return am, nil *)
 Fixpoint maps_loop (next : list rev -> option (res value * str * list rev))
          (fuel : nat) (am : list (value * str)) (S : list rev) : option (list (value * str) * res unit) :=
@@ -311,7 +341,7 @@ Fixpoint maps_loop (next : list rev -> option (res value * str * list rev))
       | Some (Panic, _, _) => Some (am, Panic)
       | Some (Err EEOF, _, _) => Some (am, Ok tt)
       | Some (Err e, _, _) => Some (am, Err EOther)     (* fmt.Errorf("error: %s - reading: %s", ...) *)
-      | Some (Ok m, raw, S') => maps_loop next f (if nonempty_map m then am ++ [(m, raw)] else am) S'
+      | Some (Ok m, raw, S') => maps_loop next f (if non_nil m then am ++ [(m, raw)] else am) S'
       end
   end.
 Definition maps_from_file next (X : str) : option (list (value * str) * res unit) :=
